@@ -214,10 +214,13 @@ def trace_levels(trace):
 def configs(rng, lp, k):
     n, m = len(lp["cols"]), len(lp["rows"])
     out = []
-    for i in range(k):
+    extra = 8 if lp.get("dep_cols") else 0          # singular warm starts: direct solves under every pricing rule
+    for i in range(k + extra):
         e = ENTRIES[i % 4] if i < 4 else rng.choice(ENTRIES)
         cfg = dict(entry=e, pp=rng.choice(PPRICE), dp=rng.choice(DPRICE), scale=rng.choice([0, 1]),
                    warm=rng.choice(["none", "none", "kept", "arb"]))
+        if i >= k:
+            cfg.update(entry=["PRIMAL", "DUAL"][i % 2], pp=PPRICE[(i // 2) % 4], dp=DPRICE[(i // 2) % 4], warm="arb")
         if rng.random() < 0.15:
             cfg["maxit"] = rng.randint(1, 6)
         if cfg["warm"] == "arb":
